@@ -64,6 +64,15 @@ def _build_rwa(d):
     return FunctionReferenceWithArguments(f.fn_reference(), args, kwargs, ctx)
 
 
+def _raw_view(d):
+    """what the call descriptor says the arguments are, encoded by the independent specification - without going through
+    any reference object of the library (whose constructor normalises its arguments)"""
+    enc = lambda v: argspec.canonical_json(argspec.spec_encode(v))  # noqa: E731
+    return {"args": enc([argspec.build_arg(x) for x in d.get("args", [])]),
+            "kwargs": enc({k: argspec.build_arg(v) for k, v in d.get("kwargs", {}).items()}),
+            "ctx": enc({} if d.get("ctx") is None else {k: argspec.build_arg(v) for k, v in d["ctx"].items()})}
+
+
 def build_memento(d):
     from twosigma.memento.metadata import Memento, InvocationMetadata, ResultType
     from twosigma.memento.resource import ResourceHandle
@@ -75,7 +84,11 @@ def build_memento(d):
         resources=[ResourceHandle(*r) for r in d["resources"]],
         runtime=datetime.timedelta(microseconds=d["runtime_us"]),
         result_type=ResultType[d["result_type"]])
-    deps = {argspec.build_arg({"t": "fn", "name": x["name"], "steps": x.get("steps", [])}).fn_reference() for x in d["deps"]}
+    from twosigma.memento.reference import FunctionReference
+    # (a dependency set may hold several versions of one function: a memoized callee computed with the previous version of
+    # a function the caller also reaches in its current version; such references do not resolve in this process)
+    deps = {(FunctionReference.from_qualified_name(x["ext"], parameter_names=["p"], external=True) if "ext" in x else
+             argspec.build_arg({"t": "fn", "name": x["name"], "steps": x.get("steps", [])}).fn_reference()) for x in d["deps"]}
     ck = None if d["content_key"] is None else VersionedDataSourceKey(d["content_key"][0], d["content_key"][1])
     return Memento(time=values.build(d["time"]), invocation_metadata=inv, function_dependencies=deps,
                    runner=d["runner"], correlation_id=d["cid"], content_key=ck)
@@ -230,40 +243,87 @@ def execute(case, scratch):
     _check_tags(m1.invocation_metadata.fn_reference_with_args, doc2["invocationMetadata"]["fnReferenceWithArgs"], tag_errs)
     for e in tag_errs[:2]:
         out.violation(e, symptom="wrong-type-tag")
-    # field-wise equivalence
+    # the reference objects hold the arguments they were given
+    for which, dd, r in [("call", case["call"], m1.invocation_metadata.fn_reference_with_args)] + \
+            [("invocation %d" % i, dd, r) for i, (dd, r) in enumerate(zip(case["invocations"], m1.invocation_metadata.invocations))]:
+        raw, held = _raw_view(dd), _rwa_view(r)
+        for k in raw:
+            if raw[k] != held[k]:
+                out.violation("%s: %s given as %s, the reference object holds %s" % (which, k, raw[k][:300], held[k][:300]),
+                              symptom="field-differs", field="given." + k)
+                break
+    _compare(out, m1, m2, "")
+    # the same memento through the metadata path of a real store (written as a JSON file, read back by a new backend object)
+    if not out.violations:
+        try:
+            m3 = _through_store(m1, scratch)
+        except Exception as e:
+            sig = lib_exception_signature(e)
+            if sig is None:
+                raise
+            out.violation("storing / re-reading the memento raised %r" % (e,), symptom="exception", path="store", **sig)
+            return _finish(out, case)
+        if m3 is None:
+            out.violation("the memento just stored is not found by a new backend object on the same directory", symptom="not-found-after-store")
+        else:
+            _compare(out, m1, m3, "store: ", content_key=False)
+    return _finish(out, case)
+
+
+_store_n = [0]
+
+
+def _through_store(m1, scratch):
+    import copy
+    import os
+    import shutil
+    from twosigma.memento.storage_filesystem import FilesystemStorageBackend
+    _store_n[0] += 1
+    d = os.path.join(scratch, "c11-store-%d-%d" % (os.getpid(), _store_n[0]))
+    try:
+        # (the metadata half of memoize(); the result itself is not the subject here and need not match the result type)
+        FilesystemStorageBackend(path=d)._metadata_source.put_memento(copy.copy(m1))
+        return FilesystemStorageBackend(path=d).get_memento(m1.invocation_metadata.fn_reference_with_args.fn_reference_with_arg_hash())
+    finally:
+        shutil.rmtree(d, ignore_errors=True)
+
+
+def _compare(out, m1, m2, pre, content_key=True):
+    """field-wise equivalence of two mementos"""
+    def v(msg, **k):
+        out.violation(pre + msg, **k)
     t1, t2 = m1.time, m2.time
     if not values.typed_equal(t1, t2):
-        out.violation("time %r decoded as %r" % (t1, t2), symptom="field-differs", field="time")
+        v("time %r decoded as %r" % (t1, t2), symptom="field-differs", field="time")
     a, b = _rwa_view(m1.invocation_metadata.fn_reference_with_args), _rwa_view(m2.invocation_metadata.fn_reference_with_args)
     for k in a:
         if a[k] != b[k]:
-            out.violation("call %s: %s became %s" % (k, a[k][:300] if isinstance(a[k], str) else a[k], b[k][:300] if isinstance(b[k], str) else b[k]),
+            v("call %s: %s became %s" % (k, a[k][:300] if isinstance(a[k], str) else a[k], b[k][:300] if isinstance(b[k], str) else b[k]),
                           symptom="field-differs", field="call." + k)
     want_hash = argspec.spec_hash(m1.invocation_metadata.fn_reference_with_args.effective_kwargs,
                                   m1.invocation_metadata.fn_reference_with_args.context_args)
     if b["arg_hash"] != want_hash:
-        out.violation("arg hash after decode %s != documented algorithm %s" % (b["arg_hash"][:12], want_hash[:12]),
+        v("arg hash after decode %s != documented algorithm %s" % (b["arg_hash"][:12], want_hash[:12]),
                       symptom="hash-not-preserved")
     i1, i2 = m1.invocation_metadata.invocations, m2.invocation_metadata.invocations
     if [_rwa_view(x) for x in i1] != [_rwa_view(x) for x in (i2 or [])]:
-        out.violation("invocations differ after round trip", symptom="field-differs", field="invocations")
+        v("invocations differ after round trip", symptom="field-differs", field="invocations")
     if list(m1.invocation_metadata.resources) != list(m2.invocation_metadata.resources or []):
-        out.violation("resources %r became %r" % (m1.invocation_metadata.resources, m2.invocation_metadata.resources),
+        v("resources %r became %r" % (m1.invocation_metadata.resources, m2.invocation_metadata.resources),
                       symptom="field-differs", field="resources")
     if sorted(_ref_view(f) for f in m1.function_dependencies) != sorted(_ref_view(f) for f in m2.function_dependencies):
-        out.violation("function dependencies differ after round trip", symptom="field-differs", field="dependencies")
+        v("function dependencies differ after round trip", symptom="field-differs", field="dependencies")
     if m1.invocation_metadata.runtime != m2.invocation_metadata.runtime:
-        out.violation("runtime %r became %r" % (m1.invocation_metadata.runtime, m2.invocation_metadata.runtime),
+        v("runtime %r became %r" % (m1.invocation_metadata.runtime, m2.invocation_metadata.runtime),
                       symptom="field-differs", field="runtime")
     if m1.invocation_metadata.result_type is not m2.invocation_metadata.result_type:
-        out.violation("result type %r became %r" % (m1.invocation_metadata.result_type, m2.invocation_metadata.result_type),
+        v("result type %r became %r" % (m1.invocation_metadata.result_type, m2.invocation_metadata.result_type),
                       symptom="field-differs", field="result_type")
     if m1.runner != m2.runner or m1.correlation_id != m2.correlation_id:
-        out.violation("runner/correlation id changed", symptom="field-differs", field="runner")
+        v("runner/correlation id changed", symptom="field-differs", field="runner")
     c1, c2 = m1.content_key, m2.content_key
-    if (c1 is None) != (c2 is None) or (c1 is not None and (c1.key != c2.key or c1.version != c2.version)):
-        out.violation("content key %r became %r" % (c1, c2), symptom="field-differs", field="content_key")
-    return _finish(out, case)
+    if content_key and ((c1 is None) != (c2 is None) or (c1 is not None and (c1.key != c2.key or c1.version != c2.version))):
+        v("content key %r became %r" % (c1, c2), symptom="field-differs", field="content_key")
 
 
 def _check_tags(rwa, enc, errs):
@@ -328,6 +388,8 @@ def _finish(out, case):
         labs.append("multi-invocation")
     if '"name":"ext"' in text:
         labs.append("external-reference-with-args")
+    if '"t":"extfn"' in text:
+        labs.append("unresolvable-function-as-argument")
     out.labels = labs + ["rt:" + case["result_type"]]
     out.nontrivial = bool(labs)
     out.nt_key = [labs, re.sub(r'"v":"[^"]*"', '"v":_', text)[:4000]]
@@ -354,6 +416,12 @@ def strategy():
     A = argspec.strategies()
     S = A.S
     printable = st.text(alphabet=st.characters(min_codepoint=32, max_codepoint=126), max_size=12)
+
+    # a function-valued argument whose function (version) cannot be resolved here, plain / partially applied / inside a list
+    extfn = st.builds(lambda qn, pa, pk: {"t": "extfn", "qn": qn, "params": ["x", "scale", "w"], "pargs": pa, "pkwargs": pk},
+                      st.sampled_from(["c::gone.module:model#3", "vlib.afuncs:g2#0-old", "pkg.m:f#1"]),
+                      st.lists(A.simple, max_size=1), st.one_of(st.just({}), st.just({}), A.simple.map(lambda v: {"w": v})))
+    ARG = st.one_of(A.arg, A.arg, A.arg, A.arg, extfn, extfn.map(lambda e: {"t": "list", "v": [e]}))
 
     @st.composite
     def ext_call(draw):
@@ -388,13 +456,15 @@ def strategy():
             used = 1
         rest = params[used:]
         npos = draw(st.integers(0, len(rest)))
-        args = [draw(A.arg) for _ in range(npos)]
+        args = [draw(ARG) for _ in range(npos)]
         kwn = draw(st.lists(st.sampled_from(rest[npos:] + ["extra"]) if name in ("g5",) else
                             (st.sampled_from(rest[npos:]) if rest[npos:] else st.nothing()), max_size=2, unique=True)) if (rest[npos:] or name == "g5") else []
-        kwargs = {k: draw(A.arg) for k in kwn}
+        kwargs = {k: draw(ARG) for k in kwn}
         return {"fn": {"name": name, "steps": steps}, "args": args, "kwargs": kwargs, "ctx": draw(A.ctx)}
 
-    fnd = st.builds(lambda n, s: {"name": n, "steps": s}, st.sampled_from(["g1", "g2", "h1", "h2", "g7"]), st.just([]))
+    fnd = st.one_of(st.builds(lambda n, s: {"name": n, "steps": s}, st.sampled_from(["g1", "g2", "h1", "h2", "g7"]), st.just([])),
+                    st.builds(lambda n, s: {"name": n, "steps": s}, st.sampled_from(["g1", "g2", "h1", "h2", "g7"]), st.just([])),
+                    st.sampled_from(["c::gone.module:fn#3", "c::gone.module:fn#4", "vlib.afuncs:g1#0-old", "vlib.afuncs:g1#1-older", "pkg.m:f#1", "pkg.m:f#2"]).map(lambda q: {"ext": q}))
 
     @st.composite
     def case(draw):
@@ -408,7 +478,7 @@ def strategy():
             "call": draw(call()),
             "invocations": draw(st.lists(call(), max_size=5)),
             "resources": draw(st.lists(st.tuples(printable, S.text, S.text).map(list), max_size=3)),
-            "deps": draw(st.lists(fnd, max_size=3)),
+            "deps": draw(st.lists(fnd, max_size=4)),
             "runtime_us": draw(st.one_of(st.integers(0, 10**12), st.sampled_from([0, 1, 999999, 10**12, 123 * 86400 * 10**6]))),
             "result_type": draw(st.sampled_from(RESULT_TYPES)),
             "runner": draw(st.one_of(st.just({"type": "local"}), st.dictionaries(S.ident, S.text, max_size=2))),
